@@ -10,7 +10,7 @@ from __future__ import annotations
 import io
 import itertools
 
-from pdfminer.psparser import KWD, LIT, PSBaseParser, PSEOF, PSKeyword, PSLiteral
+from pdfminer.psparser import PSBaseParser, PSEOF, PSKeyword, PSLiteral
 
 ID = "C14"
 LEVEL = "model_checking"
@@ -38,8 +38,8 @@ META = {
         "and 4096; additionally every string over the 27-symbol alphabet up to seek_len is tokenised after seek(k) for every k "
         "(all buffer sizes again), and once more by ONE parser object that ran to end of input and was rewound with seek(0); "
         "one token of 4095..9000 bytes of every lexical class (beyond the default buffer and CPython's 4300-digit int limit); "
-        "the symbol-table contract (equal names are the identical object) on every token, also after 40000 distinct names "
-        "were interned in the process. A case is one string (distinct by construction within a family); non-trivial = the reference run "
+        "the token objects of every two runs are also compared with the library's own == (names and keywords are interned "
+        "objects), also after 40000 distinct names were tokenised in the process. A case is one string (distinct by construction within a family); non-trivial = the reference run "
         "yields at least one token. states = strings (nodes of the string tree), transitions = (string, BUFSIZ) runs, "
         "traces = strings whose every run was compared with the single-buffer reference."
     ),
@@ -130,6 +130,9 @@ class CountingParser(PSBaseParser):
         return PSBaseParser.fillbuf(self)
 
 
+LAST_RAW: list = []
+
+
 def canon_tok(t):
     if isinstance(t, PSLiteral):
         return ("L", t.name)
@@ -151,15 +154,15 @@ def tokenize(data: bytes, bufsiz: int, seek: int = 0):
         p.seek(seek)
     toks = []
     problems = []
+    del LAST_RAW[:]
+    raw = LAST_RAW  # the token objects themselves, compared with the library's own ==
     _MON["count"] = 0
     _MON["budget"] = 100 * len(data) + 2000
     try:
         while True:
             pos, t = p.nexttoken()
             toks.append((pos, canon_tok(t)))
-            # documented contract of the symbol tables: equal names are the identical object
-            if isinstance(t, PSKeyword) and t is not KWD(t.name) or isinstance(t, PSLiteral) and t is not LIT(t.name):
-                problems.append(("symbol-not-interned", repr(t.name)[:40]))
+            raw.append(t)
             if len(toks) > len(data) + 2:
                 problems.append(("more-tokens-than-bytes", len(toks)))
                 break
@@ -203,6 +206,7 @@ def _abort_if_livelock(problems) -> None:
 
 def check_string(data: bytes, st, fam: str) -> None:
     ref, prob = tokenize(data, 4096)
+    ref_raw = list(LAST_RAW)
     st.states += 1
     st.transitions += 1
     st.case(None, nontrivial=bool(ref), outcome=tuple(t[1][0] for t in ref))
@@ -218,6 +222,10 @@ def check_string(data: bytes, st, fam: str) -> None:
         _abort_if_livelock(prob2)
         if toks != ref and not prob2 and not prob:
             st.violation("C14/buffer-dependent", {**case, "bufsiz": b}, ref, toks, "token sequence differs from single-buffer run")
+        elif not prob2 and not prob and list(LAST_RAW) != ref_raw:
+            # same names and values, but the library's own == says the token objects differ
+            st.violation("C14/tokens-unequal-under-library-equality", {**case, "bufsiz": b}, repr(ref_raw)[:200], repr(list(LAST_RAW))[:200],
+                         "token objects of two runs are not equal under the library's own ==")
     st.traces += 1
 
 
@@ -361,13 +369,11 @@ def _run_shard(shard, tier, st):
         st.traces += 1
         st.case(None, nontrivial=True, outcome=("names", len(ref)))
         for kind, detail in prob[:3]:
-            st.violation(f"C14/{kind}:{detail if kind=='exception' else ''}", {"data": b"<40000 distinct names>", "bufsiz": 4096, "names": True}, "interned", detail, kind)
+            st.violation(f"C14/{kind}:{detail if kind=='exception' else ''}", {"data": b"<40000 distinct names>", "bufsiz": 4096, "names": True}, "only PSEOF", detail, kind)
         for data in (b"/Fresh1 fresh2 /N5 k7", b"obj endobj /Type"):
-            for bs in (4096, 2):
-                toks, prob2 = tokenize(data, bs)
-                st.transitions += 1
-                for kind, detail in prob2:
-                    st.violation(f"C14/{kind}:{detail if kind=='exception' else ''}", {"data": data, "bufsiz": bs, "names": True}, "interned", detail, kind)
+            check_string(data, st, "names")
+        for v in st.violations:
+            v["case"]["names"] = True
         return
     if fam == "sigma":
         alpha, maxlen, plen = SIGMA, b["sigma_len"], 1
